@@ -188,7 +188,9 @@ def run(repo: Repo, rep: Report, tier: str) -> None:
     if len(loops) == 1:
         body = " ".join(norm(s) for s in ast.walk(loops[0]) if isinstance(s, ast.stmt))
         ok = "if hasattr(primitive, elem.keyword):" in norm(loops[0].body[0]) or "hasattr(primitive, elem.keyword)" in body
-        ok = ok and "attr = getattr(primitive, elem.keyword)" in body and "elem.value = attr" in body and "del self.command_set[elem.tag]" in body and "if attr is not None" in body
+        from ..loader import oriented
+        ors = [o for o in (oriented(i, "attr is not None") for i in ast.walk(loops[0]) if isinstance(i, ast.If)) if o is not None]
+        ok = ok and "attr = getattr(primitive, elem.keyword)" in body and len(ors) == 1 and [norm(x) for x in ors[0][0]] == ["elem.value = attr"] and [norm(x) for x in ors[0][1]] == ["del self.command_set[elem.tag]"]
     rep.check(ok, "generic-loops", "dimse_messages.DIMSEMessage.primitive_to_message", "for elem in command_set: value <- getattr(primitive, keyword); None -> delete", "every parameter the primitive has must be copied into the command set (and only unset ones removed)", mod=dm, node=p2m)
     rev = [s for s in walk_no_nested(p2m) if isinstance(s, ast.Assign) and norm(s.targets[0]) == "rev_type"]
     okr = len(rev) == 1 and norm(rev[0].value) == "{vv[0]: kk for kk, vv in _MESSAGE_TYPES.items()}" and any(norm(s) == "self.command_set.CommandField = rev_type[cls_type_name]" for s in walk_no_nested(p2m) if isinstance(s, ast.stmt))
